@@ -718,7 +718,10 @@ class Rechunk(ArrayExpr):
             raise ValueError("Provided chunks are not consistent with shape")
 
         if self.balance:
-            chunks = tuple(_balance_chunksizes(chunk) for chunk in chunks)
+            # an axis of unknown sizes cannot be balanced (and cannot change anyway)
+            chunks = tuple(
+                chunk if any(math.isnan(c) for c in chunk) else _balance_chunksizes(chunk) for chunk in chunks
+            )
 
         _validate_rechunk(x.chunks, chunks)
 
